@@ -117,6 +117,7 @@ type lifeSeq struct {
 	pgov     govv1beta1.Handler // params handler as governance would call it
 	coms     map[uint64]comDesc
 	contents map[uint64]string
+	cast     map[[2]uint64]string // (proposal, voter index) -> option the harness cast last; never read from the store
 	out      *c.Out
 	r        *c.Rng
 }
@@ -200,6 +201,24 @@ func (s *lifeSeq) observe(ctx sdk.Context) lifeObs {
 	return o
 }
 
+func (s *lifeSeq) castEnc() string {
+	keys := make([][2]uint64, 0, len(s.cast))
+	for k := range s.cast {
+		keys = append(keys, k)
+	}
+	sort.Slice(keys, func(i, j int) bool {
+		return keys[i][0] < keys[j][0] || (keys[i][0] == keys[j][0] && keys[i][1] < keys[j][1])
+	})
+	if len(keys) == 0 {
+		return "-"
+	}
+	out := make([]string, len(keys))
+	for i, k := range keys {
+		out[i] = fmt.Sprintf("%d:%d:%s", k[0], k[1], s.cast[k])
+	}
+	return strings.Join(out, ";")
+}
+
 func closeEvents(em *sdk.EventManager) string {
 	var out []string
 	for _, e := range em.Events() {
@@ -226,6 +245,7 @@ func closeEvents(em *sdk.EventManager) string {
 // exec runs one committee-module operation the way baseapp runs a message and emits the case line.
 func (s *lifeSeq) exec(sig, op string, f func(ctx sdk.Context) error) kapp.Class {
 	pre := s.observe(s.ctx)
+	castPre := s.castEnc()
 	em := sdk.NewEventManager()
 	cls, _ := kapp.Exec(s.ctx.WithEventManager(em), f)
 	post := s.observe(s.ctx)
@@ -244,7 +264,7 @@ func (s *lifeSeq) exec(sig, op string, f func(ctx sdk.Context) error) kapp.Class
 			full += "|" + strings.Join(c.SortedKeys(oc), "+")
 		}
 	}
-	s.out.Case(full, "c17.life", pre.coms, pre.props, pre.votes, pre.next, pre.ext, op, "=>", string(cls), post.props, post.votes, post.next, post.ext, ev)
+	s.out.Case(full, "c17.life", pre.coms, pre.props, pre.votes, pre.next, pre.ext, op, "=>", string(cls), post.props, post.votes, post.next, post.ext, ev, castPre)
 	s.out.Note("life-" + strings.Fields(op)[0] + "-" + string(cls))
 	return cls
 }
@@ -322,7 +342,7 @@ func (s *lifeSeq) genCommittee(id uint64) comDesc {
 
 func runLifeSeq(w *lifeWorld, out *c.Out, r *c.Rng, steps int) {
 	cctx, _ := w.base.CacheContext() // every sequence starts from the same genesis-derived state
-	s := &lifeSeq{w: w, ctx: cctx, k: w.tApp.GetCommitteeKeeper(), coms: map[uint64]comDesc{}, contents: map[uint64]string{}, out: out, r: r}
+	s := &lifeSeq{w: w, ctx: cctx, k: w.tApp.GetCommitteeKeeper(), coms: map[uint64]comDesc{}, contents: map[uint64]string{}, cast: map[[2]uint64]string{}, out: out, r: r}
 	s.msg = ckeeper.NewMsgServerImpl(s.k)
 	s.gov = committee.NewProposalHandler(s.k)
 	s.pgov = params.NewParamChangeProposalHandler(w.tApp.GetParamsKeeper())
@@ -396,11 +416,50 @@ func runLifeSeq(w *lifeWorld, out *c.Out, r *c.Rng, steps int) {
 					vt, vs = ctypes.VOTE_TYPE_ABSTAIN, "a"
 				}
 			}
+			sig := "vote:" + vs
+			// re-vote with a different option: pick a vote already cast on a token-committee proposal and
+			// change it (yes→no, no→yes, abstain→yes/no); heavy holders first, they move the tally across
+			// the threshold / quorum
+			if len(s.cast) > 0 && r.Chance(35) {
+				var cands [][2]uint64
+				for k := range s.cast {
+					for _, p := range props {
+						if d, ok := s.coms[p.CommitteeID]; ok && p.ID == k[0] && d.token {
+							cands = append(cands, k)
+						}
+					}
+				}
+				sort.Slice(cands, func(i, j int) bool {
+					return cands[i][1] > cands[j][1] || (cands[i][1] == cands[j][1] && cands[i][0] < cands[j][0])
+				})
+				if len(cands) > 0 {
+					k := cands[0]
+					if r.Chance(50) {
+						k = c.Pick(r, cands)
+					}
+					pid, voter = k[0], int(k[1])
+					switch s.cast[k] {
+					case "y":
+						vt, vs = ctypes.VOTE_TYPE_NO, "n"
+					case "n":
+						vt, vs = ctypes.VOTE_TYPE_YES, "y"
+					default:
+						if r.Bool() {
+							vt, vs = ctypes.VOTE_TYPE_YES, "y"
+						} else {
+							vt, vs = ctypes.VOTE_TYPE_NO, "n"
+						}
+					}
+					sig = "revote:" + s.cast[k] + ">" + vs
+				}
+			}
 			op := fmt.Sprintf("vote %d %d %d %s", s.now(), pid, voter, vs)
-			s.exec("vote:"+vs, op, func(cx sdk.Context) error {
+			if s.exec(sig, op, func(cx sdk.Context) error {
 				_, err := s.msg.Vote(sdk.WrapSDKContext(cx), ctypes.NewMsgVote(w.addrs[voter], pid, vt))
 				return err
-			})
+			}) == kapp.OK {
+				s.cast[[2]uint64{pid, uint64(voter)}] = vs
+			}
 		case x < 17: // next block: time moves (boundary-biased around a pending deadline), begin block runs
 			dt := c.Pick(r, []int64{0, 1, 500, 999, 1000, 1001, int64(time.Second), int64(3 * time.Second)})
 			if len(props) > 0 && r.Chance(30) {
@@ -430,7 +489,7 @@ func runLifeSeq(w *lifeWorld, out *c.Out, r *c.Rng, steps int) {
 				}
 				sig += "|" + strings.Join(c.SortedKeys(oc), "+")
 			}
-			out.Case(sig, "c17.life", pre.coms, pre.props, pre.votes, pre.next, pre.ext, fmt.Sprintf("begin %d", s.now()), "=>", cls, post.props, post.votes, post.next, post.ext, ev)
+			out.Case(sig, "c17.life", pre.coms, pre.props, pre.votes, pre.next, pre.ext, fmt.Sprintf("begin %d", s.now()), "=>", cls, post.props, post.votes, post.next, post.ext, ev, s.castEnc())
 			out.Note("life-begin-" + cls)
 			if panicked {
 				return
